@@ -140,9 +140,13 @@ func c08RealRun(p c08RealPlan, idseed uint64) (res c08RealResult) {
 			}
 			res.faultedOn, res.faultedNS = r.Verb, r.NS
 			after := false
-			for j := i - 1; j >= 0 && j >= i-2; j-- {
+			for j := i - 1; j >= 0 && j >= i-12; j-- {
+				if log[j].Verb == "update" && strings.HasSuffix(log[j].NS, ".-_-Datatypes") {
+					break
+				}
 				if log[j].Verb == "insert" && strings.HasSuffix(log[j].NS, ".-_-Operations") {
 					after = true
+					break
 				}
 			}
 			if r.Verb == "insert" && strings.HasSuffix(r.NS, ".-_-Operations") && p.Mode != "fail-before" {
